@@ -32,6 +32,9 @@
      UNK  {"frobnicate":{..}}  (valid JSON, unknown action)
      NJ   not JSON          EMP  empty line
      DOC  valid document    BAD  damaged document (truncated JSON)
+     NOC  valid document without any leaf column after flattening: {}, only the timestamp key, only empty
+          containers / nulls.  It is a document like any other: created <=> searchable exactly once (it
+          carries no marker, so the harness counts the marker-less records of the index)
      BIG  valid document of >= MAX_RECORD_SIZE bytes
    nl = does the body end with a newline (bodies whose last line is EMP are
    only generated with nl = TRUE: without it they are textually a shorter body). *)
@@ -57,7 +60,7 @@ vars == <<body, nl, pc, p, act, inCount, items, success, maxExceeded, overallErr
 
 N == Len(body)
 ActionClasses == {"IDX", "IDXB", "IDXL", "CRE"}          \* index / create
-JsonObjects == {"IDX", "IDXB", "IDXL", "CRE", "UPD", "DEL", "UNK", "DOC"}   \* parse as a JSON object (and are < MAX_RECORD_SIZE)
+JsonObjects == {"IDX", "IDXB", "IDXL", "CRE", "UPD", "DEL", "UNK", "DOC", "NOC"}   \* parse as a JSON object (and are < MAX_RECORD_SIZE)
 IndexOf(c) == CASE c = "IDX" -> "a" [] c = "CRE" -> "a" [] c = "IDXB" -> "b" [] c = "IDXL" -> "L" [] OTHER -> "eventType"
 StoreFails(idx) == idx = "L"
 NoAct == [k |-> "none", a |-> 0, c |-> "EMP"]
